@@ -51,7 +51,9 @@ class JSONField(ABC):
         assert isinstance(lab, JSONField)
         inst = lab.__class__()
         for k, v in lab.__dict__.items():
-            inst.__setattr__(k, v)
+            # list-valued fields (e.g. several vlans) get a list of their own: the copy must not
+            # change when the original's list does, or the other way round
+            inst.__setattr__(k, list(v) if isinstance(v, list) else v)
         inst._set_fields(**kwargs)
         return inst
 
